@@ -93,6 +93,37 @@ theorem C05_fmt_minified : FmtOK Fmt.minified :=
 theorem C05_fmt_std_manifest_json : FmtOK Fmt.stdManifestJson :=
   C05_fmt_manifest_ex (u1 := []) (u2 := [32]) (by decide) (by decide) rfl (by decide) (by decide)
 
+/-! The round trip at each JSON entry point of the implementation. -/
+
+/-- default output of the CLI / library (`Program::manifest_json(v, true)`), also the
+    items of `-y` streams and the files of `-m` -/
+theorem C05_roundtrip_default_output (v : JVal) (hv : ValOK v) :
+    parseJson (manifest Fmt.defaultManifest 0 v) = .ok v :=
+  C05_manifest_parse_roundtrip C05_fmt_default_manifest v hv
+
+/-- `std.toString(v)` / string coercion of a non-string, `manifest_json(v, false)` -/
+theorem C05_roundtrip_to_string (v : JVal) (hv : ValOK v) (hns : ∀ s, v ≠ .str s) :
+    parseJson (toStringVal v) = .ok v := by
+  have : toStringVal v = manifest Fmt.toStringFmt 0 v := by
+    cases v <;> first | rfl | exact absurd rfl (hns _)
+  rw [this]; exact C05_manifest_parse_roundtrip C05_fmt_to_string v hv
+
+/-- `std.manifestJsonMinified(v)` -/
+theorem C05_roundtrip_minified (v : JVal) (hv : ValOK v) :
+    parseJson (manifest Fmt.minified 0 v) = .ok v :=
+  C05_manifest_parse_roundtrip C05_fmt_minified v hv
+
+/-- `std.manifestJson(v)` -/
+theorem C05_roundtrip_manifest_json (v : JVal) (hv : ValOK v) :
+    parseJson (manifest Fmt.stdManifestJson 0 v) = .ok v :=
+  C05_manifest_parse_roundtrip C05_fmt_std_manifest_json v hv
+
+/-- `std.manifestJsonEx(v, indent, newline, key_val_sep)` for whitespace settings -/
+theorem C05_roundtrip_manifest_json_ex {i n k u1 u2 : Str} (hi : WsStr i) (hn : WsStr n)
+    (hk : k = u1 ++ 58 :: u2) (h1 : WsStr u1) (h2 : WsStr u2) (v : JVal) (hv : ValOK v) :
+    parseJson (manifest (Fmt.ex i n k) 0 v) = .ok v :=
+  C05_manifest_parse_roundtrip (C05_fmt_manifest_ex hi hn hk h1 h2) v hv
+
 /-- **C05 manifest_sorted_visible.**  The field list handed to the manifester
     (`get_visible_fields_order`) for an object with fields `fs`
     (name, hidden?, value) with pairwise distinct names: names strictly increasing
@@ -199,6 +230,16 @@ open Rsj.Json in
 #print axioms C05_fmt_minified
 open Rsj.Json in
 #print axioms C05_fmt_std_manifest_json
+open Rsj.Json in
+#print axioms C05_roundtrip_default_output
+open Rsj.Json in
+#print axioms C05_roundtrip_to_string
+open Rsj.Json in
+#print axioms C05_roundtrip_minified
+open Rsj.Json in
+#print axioms C05_roundtrip_manifest_json
+open Rsj.Json in
+#print axioms C05_roundtrip_manifest_json_ex
 open Rsj.Json in
 #print axioms C05_manifest_sorted_visible
 open Rsj.Json in
